@@ -168,7 +168,8 @@ def _float_to_cst(value: float) -> cst.BaseExpression:
         if "." not in float_str and "e" not in float_str:
             float_str += ".0"
         inner = cst.Float(float_str)
-    if value < 0:
+    if math.copysign(1.0, value) < 0:
+        # also covers -0.0, which is not smaller than zero
         return cst.UnaryOperation(
             operator=cst.Minus(),
             expression=inner,
@@ -288,12 +289,20 @@ def _parse_float(expr: cst.BaseExpression) -> float | None:
     """
     if isinstance(expr, cst.Float):
         return float(expr.value)
+    if isinstance(expr, cst.UnaryOperation) and isinstance(expr.operator, cst.Minus):
+        inner = _parse_float(expr.expression)
+        return None if inner is None else -inner
     if (
-        isinstance(expr, cst.UnaryOperation)
-        and isinstance(expr.operator, cst.Minus)
-        and isinstance(expr.expression, cst.Float)
+        isinstance(expr, cst.Call)
+        and isinstance(expr.func, cst.Name)
+        and expr.func.value == "float"
+        and len(expr.args) == 1
+        and isinstance(expr.args[0].value, cst.SimpleString)
     ):
-        return -float(expr.expression.value)
+        # the non-finite values are rendered as float('inf') / float('nan')
+        text = expr.args[0].value.evaluated_value
+        if text in {"inf", "nan"}:
+            return float(text)
     return None
 
 
